@@ -31,6 +31,7 @@ var siteRecipes = map[string]string{
 	"app/app.go|SekaiApp.ModuleAccountAddrs|maccPerms":                              "recipe:module-account-recipient",
 	"app/app.go|GetMaccPerms|maccPerms":                                             "recipe:module-account-recipient",
 	"x/gov/keeper/grpc_query.go|Keeper.AllExecutionFees|kiratypes.MsgFuncIDMapping": "none: gRPC query handler, not reachable from a block",
+	"x/recovery/keeper/msg_server.go|msgServer.RotateRecoveryAddress|txPool.Record": "none: in-place rewrite of each record, order-free by inspection (audit entry); a replica recipe is not informative while TransactionPool is marshalled in Go map order (known finding encoding-not-canonical:TransactionPool): the block creating the second pending transfer already diverges and only the first diverging block is judged",
 	"x/gov/types/identity_registrar.go|WrapInfos|infos":                             "none: only caller is x/gov/client/cli",
 }
 
